@@ -397,10 +397,21 @@ func scEcho(c Case, fc *frameCtx) *evid.Failure {
 		}
 		pl := pattern(c.Seed+uint64(i), n)
 		n0 := tap.Len()
+		// some requests arrive with a damaged ICMP checksum: the stack need not answer
+		// them, but whatever it emits must verify
+		damage := (c.Seed>>(2*uint(i%16)))&3 == 0
+		spoil := func(m []byte) []byte {
+			if damage && len(m) >= 4 {
+				m[2] ^= byte(0x5a + i)
+				m[3] ^= byte(c.Seed>>8) | 1
+				evid.Label("echo:request-with-damaged-checksum")
+			}
+			return m
+		}
 		if c.V6 {
-			tap.Inject(0x86dd, codec.BuildIPv6(codec.IPv6Hdr{Src: []byte(netsim.B6), Dst: target6, NextHeader: codec.ProtoICMPv6}, codec.BuildICMPv6Echo([]byte(netsim.B6), target6, 128, uint16(i), 7, pl)))
+			tap.Inject(0x86dd, codec.BuildIPv6(codec.IPv6Hdr{Src: []byte(netsim.B6), Dst: target6, NextHeader: codec.ProtoICMPv6}, spoil(codec.BuildICMPv6Echo([]byte(netsim.B6), target6, 128, uint16(i), 7, pl))))
 		} else {
-			tap.Inject(0x0800, codec.BuildIPv4(codec.IPv4Hdr{Src: []byte(netsim.B4), Dst: target4, Proto: codec.ProtoICMP}, codec.BuildICMPv4Echo(8, uint16(i), 7, pl)))
+			tap.Inject(0x0800, codec.BuildIPv4(codec.IPv4Hdr{Src: []byte(netsim.B4), Dst: target4, Proto: codec.ProtoICMP}, spoil(codec.BuildICMPv4Echo(8, uint16(i), 7, pl))))
 		}
 		f, _, ok := tap.Scan(n0, time.Second, func(f netsim.Frame) bool { return f.Pkt.L4Kind == "icmp4" || f.Pkt.L4Kind == "icmp6" })
 		if ok {
